@@ -492,12 +492,17 @@ class RangeNode(SyntaxNode):
                     e = sys.exc_info()[1]
                     return attach(query.error_query(e), self)
 
-            if start:
-                start = get_single_text(field, start, tokenize=False,
-                                        removestops=False)
-            if end:
-                end = get_single_text(field, end, tokenize=False,
-                                      removestops=False)
+            try:
+                if start:
+                    start = get_single_text(field, start, tokenize=False,
+                                            removestops=False)
+                if end:
+                    end = get_single_text(field, end, tokenize=False,
+                                          removestops=False)
+            except Exception:
+                # The field can't analyze text (no format or analyzer)
+                e = sys.exc_info()[1]
+                return attach(query.error_query(e), self)
 
         q = query.TermRange(fieldname, start, end, self.startexcl,
                             self.endexcl, boost=self.boost)
